@@ -54,7 +54,8 @@ TRUSTED = [
 ]
 ASSUMPTIONS = [
     "file objects are io.BytesIO or regular files opened 'rb'; XOR keys are bytes objects; io.DEFAULT_BUFFER_SIZE >= 1",
-    "a successful XorEncoded detection at nonce offset c implies c + 8 <= file size (hypothesis of the theorems)",
+    "a successful XorEncoded detection at nonce offset c implies c + 8 <= file size (hypothesis `DetOk` of the parameterised theorems; "
+    "proved for the detector the model runs, detOk_of_detectRun, and not a hypothesis of the end-to-end theorems)",
     "generators consumed only up to the first yield behave as the prefix of the fully consumed run (from_file does not resume the generator)",
 ]
 RULE = ("builder grid: settings block x key x container (raw, PE-like, XorEncoded stage, Guardrails-protected area) x offset (0, 1, around k*B, cut by EOF) x filler x "
